@@ -914,4 +914,101 @@ theorem pipeline_rejects (L : Lib) (p : Proto) (tr : Transport) (kw : ParserKw) 
   simp only [pipeline, h]
   split <;> rfl
 
+/-! ## nothing is opened unless substitution of external entities or DTD loading is switched on
+    (covers `resolve_entities='internal'`, lxml's own default, used by the schema tools) -/
+
+theorem textAt_fetch_nil' (c : Cfg) (hq : c.kw.resolveEntities ≠ .all) (ctx : Ctx) (k n : Nat) :
+    (textAt c ctx k n).2 = [] := by
+  induction k generalizing n with
+  | zero => rfl
+  | succ k ih =>
+    simp only [textAt, refText]
+    cases lookup c.decls n with
+    | none => rfl
+    | some d =>
+      cases d with
+      | internal body => exact piecesText_fetch_nil _ ih body
+      | external u =>
+        cases ctx with
+        | attr => rfl
+        | text =>
+          cases hr : c.kw.resolveEntities with
+          | off => rfl
+          | internal => rfl
+          | all => exact absurd hr hq
+
+theorem attrValues_fetch_nil' (c : Cfg) (hq : c.kw.resolveEntities ≠ .all) (as : List (Text × List Piece)) :
+    (attrValues c as).2 = [] := by
+  induction as with
+  | nil => rfl
+  | cons a r ih =>
+    obtain ⟨k, ps⟩ := a
+    simp [attrValues, ih, piecesText_fetch_nil _ (textAt_fetch_nil' c hq .attr c.fuel) ps]
+
+theorem textRef_fetch_nil' (c : Cfg) (hq : c.kw.resolveEntities ≠ .all) (n : Nat) : (textRef c n).2 = [] := by
+  unfold textRef
+  cases hr : c.kw.resolveEntities with
+  | off => rfl
+  | internal => exact textAt_fetch_nil' c hq .text c.fuel n
+  | all => exact absurd hr hq
+
+theorem walk_fetch_nil' (c : Cfg) (hq : c.kw.resolveEntities ≠ .all) (A : Acct) (d k : Nat) (b : List Tok) :
+    (walk c A d k b).fetches = [] := by
+  induction b generalizing d k with
+  | nil => rfl
+  | cons t r ih =>
+    cases t with
+    | text t => simp [walk, prepend_fetches, ih]
+    | close => simp [walk, prepend_fetches, ih]
+    | «open» tag attrs =>
+      simp only [walk]
+      split
+      · rfl
+      · split
+        · rfl
+        · split
+          · rfl
+          · simp [prepend_fetches, ih, attrValues_fetch_nil' c hq]
+    | ref n =>
+      simp only [walk]
+      split
+      · rfl
+      · split
+        · rfl
+        · simp [prepend_fetches, ih, textRef_fetch_nil' c hq]
+
+theorem peDecls_fetch_nil' (L : Lib) (kw : ParserKw) (env : Env) (hq : kw.resolveEntities ≠ .all)
+    (hd : kw.dtdLoads = false) (us : List Uri) : (peDecls L kw env us).fetches = [] := by
+  induction us with
+  | nil => rfl
+  | cons u r ih =>
+    simp only [peDecls]
+    cases hr : kw.resolveEntities with
+    | internal => rfl
+    | off => simp [hd, ih]
+    | all => exact absurd hr hq
+
+theorem dtdPhase_fetch_nil' (L : Lib) (kw : ParserKw) (env : Env) (hq : kw.resolveEntities ≠ .all)
+    (hd : kw.dtdLoads = false) (d : Dtd) : (dtdPhase L kw env d).fetches = [] := by
+  have h1 := peDecls_fetch_nil' L kw env hq hd d.peRefs
+  unfold dtdPhase W.andThen
+  cases hv : (peDecls L kw env d.peRefs).val with
+  | err e => simpa using h1
+  | ok a =>
+    simp only [h1, List.nil_append, map_fetches]
+    cases d.extSubset <;> simp [hd, W.pure]
+
+theorem parse_no_fetch' (L : Lib) (kw : ParserKw) (env : Env) (hq : kw.resolveEntities ≠ .all)
+    (hd : kw.dtdLoads = false) (doc : Doc) : (parse L kw env doc).fetches = [] := by
+  unfold parse
+  cases doc.dtd with
+  | none => exact walk_fetch_nil' ⟨L, kw, env, [], false, doc.size⟩ hq _ 0 0 doc.body
+  | some d =>
+    simp only
+    split
+    · exact dtdPhase_fetch_nil' L kw env hq hd d
+    · rename_i D _
+      simp only [prepend_fetches, dtdPhase_fetch_nil' L kw env hq hd d, List.nil_append, parseBody]
+      exact walk_fetch_nil' ⟨L, kw, env, D, d.lenient, doc.size⟩ hq _ 0 0 doc.body
+
 end SpyneModel.XmlCfg
